@@ -15,6 +15,8 @@
     fam <P> reasm scan <hex>
     fam <P> recv handle <hex>             -> ignored | fired <cb> <hex> | raised <err>   (recvHandleWith (codec P))
 -/
+import NxsModel.Info
+import NxsModel.Gen.Fmt
 import NxsModel.Driver.Basic
 import NxsModel.Driver.Reasm
 import NxsModel.Family
@@ -90,6 +92,20 @@ def famCodecOp (p : Family.Params) : List String → Option String
   | ["find", h] => do
     let d ← hexArg h
     pure (match (Family.codec p).hdrFind d with | some i => s!"ok {i}" | none => "ok -1")
+  -- builders of the device side (ParseRecv) and of the client (Parser) with this codec: payload from the
+  -- message codecs, framing from the family member
+  | ["ackenc", r] => do
+    let r ← intArg r
+    pure (showExcept Bytes.hex ((Info.ackData r).bind fun b => Family.frameCreate p Gen.Ids.idACK (some b)))
+  | ["cmnenc", a, b, c] => do
+    let a ← intArg a; let b ← intArg b; let c ← intArg c
+    pure (showExcept Bytes.hex ((Info.cmninfoData a b c).bind fun x => Family.frameCreate p Gen.Ids.idCMNINFO (some x)))
+  | ["reqstart", b] => do
+    let b ← natArg b
+    pure (showExcept Bytes.hex ((pack Gen.Fmt.start [.bool (b ≠ 0)]).bind fun x => Family.frameCreate p Gen.Ids.idSTART (some x)))
+  | ["reqchinfo", c] => do
+    let c ← intArg c
+    pure (showExcept Bytes.hex ((pack Gen.Fmt.chinfoReq [.int c]).bind fun x => Family.frameCreate p Gen.Ids.idCHINFO (some x)))
   | "reasm" :: rest => reasmOpWith (Family.codec p) rest
   | ["recv", "handle", h] => do
     let d ← hexArg h
